@@ -3,6 +3,7 @@
 force over all choice vectors on the real code + normal form + operands-unchanged."""
 import vlib
 import polylib as PL
+import unitcorr
 
 ID = "C09"
 LEVEL = "proof"
@@ -150,13 +151,15 @@ def run(ctx):
                 mism.append(f"stream poly shard {si}: model and code differ on {len(idx)} cases; first: op={bad['op']} p={bad['p']} q={bad['q']} code={bad['res']}")
     else:
         mism.append("model not built: polynomial correspondence not run")
+    m_aux, n_aux = unitcorr.poly_aux(ctx, ctx.n(300, 3000))
+    mism += m_aux
     sizes = [len(r["p"]) * len(r["q"]) for r in results]
     distinct = len({(r["op"], str(r["p"]), str(r["q"])) for r in results if len(r["p"]) + len(r["q"]) > 2})
     stats = {"evaluations": len(results), "distinct_nontrivial": distinct,
              "rule": "operands: reachable stream (random +/x trees over the analysis leaf forms, depth<=3, sites<=4, random p/w->i corrections) "
                      "and malformed stream (arbitrary scalar/delta lists set directly on the objects); non-trivial = distinct (op,p,q) with more than two monomials in total",
              "samples": [{"op": r["op"], "p": r["p"], "q": r["q"], "result": r["res"]} for r in results[len(corpus):len(corpus) + 3]],
-             "n_reachable": n_reach, "n_malformed": n_mal, "n_corpus": len(corpus), "n_exceptions": n_exc,
+             "n_reachable": n_reach, "n_malformed": n_mal, "n_corpus": len(corpus), "poly_aux_cases": n_aux, "n_exceptions": n_exc,
              "share_add": round(sum(1 for r in results if r["op"] == "add") / max(1, len(results)), 3),
              "max_operand_product_size": max(sizes) if sizes else 0,
              "share_with_infinity": round(sum(1 for r in results if any(s == "i" for s, _ in r["p"] + r["q"])) / max(1, len(results)), 3)}
